@@ -13,7 +13,7 @@ PY = "/venv/bin/python"
 CHECKS = {
     "C01": (
         "regex language inclusion (tokenizer vs tag handler) + typestate/flow walk over parser handlers",
-        "Decides eleven necessary conditions of parse() totality and tree well-formedness for all inputs: every tokenizer tag token is accepted by tag_fn's regexes (language inclusion), no token alternative is nullable, heading tables agree, numeric conversions on the parse path are soundly guarded, children and attribute text are finalised before they are moved into argument fields, raw stack pops are paired with removal from the parent, parser state is reset per parse, row/cell/caption/list-item pushes happen only with the required parent on top (set-valued typestate), no loop around _parser_pop can pop ROOT, entries of the parameter defaultdict stay lists, constant indexes into a node's largs/children are guarded, cookie finalisation iterates to a fixed point and the parser never resets the cookie table. Does not decide totality in general.",
+        "Decides eleven necessary conditions of parse() totality and tree well-formedness for all inputs: every tokenizer tag token is accepted by tag_fn's regexes (language inclusion), no token alternative is nullable, heading tables agree, numeric conversions on the parse path are soundly guarded, children and attribute text are finalised before they are moved into argument fields, raw stack pops are paired with removal from the parent, parser state is reset per parse, row/cell/caption/list-item pushes happen only with the required parent on top (set-valued typestate), no loop around _parser_pop can pop ROOT, entries of the parameter defaultdict stay lists, constant indexes into a node's largs/children are guarded, cookie finalisation iterates to a fixed point and the parser never resets the cookie table. Does not decide totality in general. Token handlers close begin-of-line lists before they open a node (inferred from 13 conforming handlers, frozen with three reasoned exceptions).",
         "Trusts Python's re semantics as modelled by the regex toolkit; handlers reached only through tokenops/process_text dispatch.",
         "DESIGN.md §3 C01",
     ),
@@ -31,13 +31,13 @@ CHECKS = {
     ),
     "C04": (
         "must-pass-through and def-use on the template expansion path",
-        "Decides seven narrow clauses: automatic newline not bypassed, includable part computed at ingestion, positional values untrimmed / named trimmed / later duplicates win, body pipeline order stored body->preprocess->encode->substitute->expand with the new parent frame, conditional functions trim their results, missing template -> link and undefined parameter -> literal, #switch fall-through flags are latches and every keyed entry reaches the match test, shortcuts in front of the includable-part pipeline are implied by the step patterns (regex inclusion). Thin: equality with MediaWiki output is not decidable statically.",
+        "Decides seven narrow clauses: automatic newline not bypassed, includable part computed at ingestion, positional values untrimmed / named trimmed / later duplicates win, body pipeline order stored body->preprocess->encode->substitute->expand with the new parent frame, conditional functions trim their results, missing template -> link and undefined parameter -> literal, #switch fall-through flags are latches and every keyed entry reaches the match test, shortcuts in front of the includable-part pipeline are implied by the step patterns (regex inclusion). Thin: equality with MediaWiki output is not decidable statically. The argument map is filled in one pass over the call's arguments in the order written.",
         "Def-use is intra-procedural over the anchored closures.",
         "DESIGN.md §3 C04",
     ),
     "C05": (
         "may-raise analysis over the parser-function registry + recursion-guard dominance",
-        "For every registered parser function and the expansion closure: constant argument indexes are guarded, numeric conversions are soundly guarded, #expr arithmetic applications are under handlers covering the operator tables' exceptions, data-table subscripts are guarded or present in every shipped data file, tables read by SQL exist, recursion/loop guards dominate the recursive calls with a bounded depth constant, input-sized work is clamped, every call-graph cycle on the expansion path is depth-guarded or an enumerated structural recursion (frame-hungry ones under a RecursionError handler), constructor helpers assign the same context attributes on every path. Does not decide termination in general.",
+        "For every registered parser function and the expansion closure: constant argument indexes are guarded, numeric conversions are soundly guarded, #expr arithmetic applications are under handlers covering the operator tables' exceptions, data-table subscripts are guarded or present in every shipped data file, tables read by SQL exist, recursion/loop guards dominate the recursive calls with a bounded depth constant, input-sized work is clamped, every call-graph cycle on the expansion path is depth-guarded or an enumerated structural recursion (frame-hungry ones under a RecursionError handler), constructor helpers assign the same context attributes on every path. Does not decide termination in general. The template-loop detector enumerates candidate periods; new recursive groups are accepted only with a size-change argument (every cycle descends into a part of a parameter).",
         "Frozen exception table for math/builtin callables; network-backed functions excluded by name.",
         "DESIGN.md §3 C05",
     ),
@@ -49,13 +49,13 @@ CHECKS = {
     ),
     "C07": (
         "capability reachability (hook control, error-catching primitives) + cross-language constants",
-        "Decides whether a module can defeat the time limit: hook-control functions not reachable from the environment, error-catching primitives re-raise the timeout marker, the limit is armed before both pcall sites, the Python side tests the same marker string and leaves the context usable, the limit is bounded and freshly armed, the module cache receives only results of completed initialisation chunks (nothing a timeout could leave behind), and the limit of an invocation is the parameter of the enclosing expand() call, never stored state. Does not bound wall time.",
+        "Decides whether a module can defeat the time limit: hook-control functions not reachable from the environment, error-catching primitives re-raise the timeout marker, the limit is armed before both pcall sites, the Python side tests the same marker string and leaves the context usable, the limit is bounded and freshly armed, the module cache receives only results of completed initialisation chunks (nothing a timeout could leave behind), the limit of an invocation is the parameter of the enclosing expand() call, never stored state, the timeout marker is probed position-independently in the whole error text, and a nested invocation neither removes nor restarts the hook of the enclosing one. Does not bound wall time.",
         "Timeout is delivered by error() from a count hook as in the shipped sources.",
         "DESIGN.md §3 C07",
     ),
     "C08": (
         "cross-language layout agreement + def-use provenance",
-        "Tuple layout (value, is_named) built in make_frame agrees with the indexes read by frame_args_index; provenance of the four frames of reference in call_lua_sandbox, including that preprocess/expandTemplate only return constants, the heading strip-marker form or the result of expansion in the calling page context; named-argument detection and positional numbering agree with the expander; expandTemplate/callParserFunction pass arguments structurally; absence of an argument is tested with `is None`; frame and environment stacks are popped after every invocation. Thin: the metamorphic equivalences themselves are not decided.",
+        "Tuple layout (value, is_named) built in make_frame agrees with the indexes read by frame_args_index; provenance of the four frames of reference in call_lua_sandbox, including that preprocess/expandTemplate only return constants, the heading strip-marker form or the result of expansion in the calling page context; named-argument detection and positional numbering agree with the expander; expandTemplate/callParserFunction pass arguments structurally; absence of an argument is tested with `is None`; frame and environment stacks are popped after every invocation. Thin: the metamorphic equivalences themselves are not decided. make_frame fills the argument table in one pass in call order; expandTemplate's vector is the title followed by key=value texts.",
         "Lua front end resolves locals/upvalues of the shipped sandbox files only.",
         "DESIGN.md §3 C08",
     ),
@@ -67,7 +67,7 @@ CHECKS = {
     ),
     "C10": (
         "SQL fact extraction + flow walk (memo invalidation after writers)",
-        "Memoised readers of table pages are invalidated after every writer on every normal path, the upsert updates every non-key column from excluded.* unconditionally, column lists align with bound tuples and with Page(...) construction, every lookup helper goes through get_page, commits precede close/backup, writer and reader agree on the stored key form, no case-altering call on titles beyond the first letter, the namespace tables are indexed with keys of their own key space (canonical vs local names, checked against the shipped data), objects handed out by the memoised lookup are never modified, writer and reader apply the same normalising operations, every writer of the table maintains the same in-memory mirrors, closing a context deletes no shared file. Does not decide the title-spelling matrix.",
+        "Memoised readers of table pages are invalidated after every writer on every normal path, the upsert updates every non-key column from excluded.* unconditionally, column lists align with bound tuples and with Page(...) construction, every lookup helper goes through get_page, commits precede close/backup, writer and reader agree on the stored key form, no case-altering call on titles beyond the first letter, the namespace tables are indexed with keys of their own key space (canonical vs local names, checked against the shipped data), objects handed out by the memoised lookup are never modified, writer and reader apply the same normalising operations, every writer of the table maintains the same in-memory mirrors, closing a context deletes no shared file, every memoised function that reaches a SELECT on pages is invalidated by every writer, namespace prefixes are lower-cased when asked, and `_` is replaced before the title meets a prefix test or the lookup. Does not decide the title-spelling matrix.",
         "SQL is recovered from string constants reaching execute/executescript.",
         "DESIGN.md §3 C10",
     ),
@@ -109,19 +109,19 @@ CHECKS = {
     ),
     "C17": (
         "dominance on the work-list loop + SQL facts",
-        "Every push onto the analysis work list is dominated by a fresh read, the need_pre_expand skip test and the marking write (termination on cycles); propagation direction of included_map; both redirect UPDATEs present and committed; memo invalidation of the writes; the marking UPDATE selects by key columns only; in-memory mirrors of the marking are maintained by every writer; the lookup finds every stored title.",
+        "Every push onto the analysis work list is dominated by a fresh read, the need_pre_expand skip test and the marking write (termination on cycles); propagation direction of included_map; both redirect UPDATEs present and committed; memo invalidation of the writes; the marking UPDATE selects by key columns only; in-memory mirrors of the marking are maintained by every writer; the lookup finds every stored title. The classifier loop scans get_all_pages restricted by nothing but the namespace and skips no page.",
         "Exactness of the marked closure is graph-shaped runtime data and is not decided.",
         "DESIGN.md §3 C17",
     ),
     "C18": (
         "table agreement with the documented precedence ladder + mypy comparison-overlap + data cross-check",
-        "The #expr ladder and the table used at each level agree with the documented precedence, left folding; no str/int comparison in registered functions (quick: annotation-driven AST rule; thorough: mypy strict equality); formatnum and formatnum|R are inverse by statement order for every shipped locale, and the locale data is used as loaded. Values of the string functions are not decided.",
+        "The #expr ladder and the table used at each level agree with the documented precedence, left folding; no str/int comparison in registered functions (quick: annotation-driven AST rule; thorough: mypy strict equality); formatnum and formatnum|R are inverse by statement order for every shipped locale, and the locale data is used as loaded. Values of the string functions are not decided. #explode resolves a negative position against a piece count that depends on the limit (information flow).",
         "Documented precedence table frozen in the checker; values of string functions not decided.",
         "DESIGN.md §3 C18",
     ),
     "C19": (
         "exhaustiveness + writer/reader delimiter agreement + flow walk over emitter arms",
-        "to_wikitext handles every NodeKind; each opening literal it writes is a token that opens that kind in the parser; heading tables are inverse; [[ and ]] are both protected; attribute values are quoted; a parser function keeps its colon whenever it has an argument list; on every path through every emitter the node's content field (children / largs) is written out whenever it may be non-empty; every attribute line the emitter can write is accepted by the table parser (regex inclusion); serialiser counters are balanced; `<tag />` closes the element in the parser.",
+        "to_wikitext handles every NodeKind; each opening literal it writes is a token that opens that kind in the parser; heading tables are inverse; [[ and ]] are both protected; attribute values are quoted; a parser function keeps its colon whenever it has an argument list; on every path through every emitter the node's content field (children / largs) is written out whenever it may be non-empty; every attribute line the emitter can write is accepted by the table parser (regex inclusion); serialiser counters are balanced; `<tag />` closes the element in the parser; the text between a cell's attributes and its content is the token table_cell_fn splits at; serialised content is written out unaltered.",
         "Tree equivalence after re-parse is not decided.",
         "DESIGN.md §3 C19",
     ),
